@@ -180,3 +180,35 @@ def check_C05(chk):
     return chk.finish(rule="cases = call histories of IntVector / RawVector; after every call the result, the projected content, equality and "
                            "byte-identity with a canonically built vector and count_ones are compared with the Layer A state machine; "
                            "distinct = distinct history prefixes")
+
+
+def stage_gen_wm(chk, bins, alpha, maxlen, extra="{}", label=""):
+    name = "GenWM_" + label
+    path, res = vlib.generate_cases(chk.work, name, "GenWM", cfg_consts({"Alpha": alpha, "MaxLen": maxlen, "ExtraVals": extra}) + GEN_TAIL, timeout=1500)
+    chk.add_tlc(res, "GenWM alphabet %s length <= %d" % (alpha, maxlen), {"behaviours": len(res.replay_lines)})
+    out = vlib.harness(bins["dbg-native"], ["replay", "--kind", "wm", "--cases", path])
+    chk.add_replay(out, "replay %s on dbg-native (5 item types)" % name)
+
+
+def check_C04(chk):
+    bins = vlib.build_harness(["dbg-native"])
+    res = vlib.run_tlc(chk.work, "MC_VecRef_run", "MC_VecRef", cfg_consts({"Alpha": "{0, 1, 2, 3, 5}", "MaxLen": 5 if chk.thorough else 4}) + MC_TAIL + "INVARIANT Inv\n", workers=8)
+    vlib.tlc_must_pass(res, "MC_VecRef")
+    chk.add_tlc(res, "MC_VecRef: map_up inverts map_down, reordering is the stable reversed-bit sort, closed forms equal definitions")
+    if chk.thorough:
+        stage_gen_wm(chk, bins, "{0, 1, 2, 3}", 6, label="a4")
+        stage_gen_wm(chk, bins, "{0, 1, 2, 3, 4, 5, 6, 7}", 4, label="a8")
+        stage_gen_wm(chk, bins, "{0, 1}", 9, label="a2")
+        for k in (1, 4, 7, 8, 15, 16):
+            stage_gen_wm(chk, bins, "{0, 1, %d, %d, %d}" % (2 ** k - 1, 2 ** k, 2 ** k + 1), 3, label="p%d" % k)
+    else:
+        stage_gen_wm(chk, bins, "{0, 1, 2, 3}", 5, label="a4")
+        stage_gen_wm(chk, bins, "{0, 1, 2, 3, 4, 5, 6, 7}", 3, label="a8")
+        stage_gen_wm(chk, bins, "{0, 1}", 7, label="a2")
+        for k in (8, 16):
+            stage_gen_wm(chk, bins, "{0, 1, %d, %d, %d}" % (2 ** k - 1, 2 ** k, 2 ** k + 1), 2, label="p%d" % k)
+    chk.cov["exhaustive"] = True
+    stage_trace(chk, bins, "wm", "TraceWM", seeds=2 if chk.thorough else 1)
+    return chk.finish(rule="cases = (vector, query, index/rank argument, value argument) on WaveletMatrix and WMCore built from each of the five "
+                           "item types; TLC-generated for all vectors over small and sparse alphabets; recorded for skewed/uniform vectors of "
+                           "width 1..16; distinct = distinct (vector, query, argument, value)")
